@@ -177,3 +177,15 @@ def setup_clear(flag):
     return setup
 contract(f"{PV}._clear_value_history", scenarios=[("on.", setup_clear(True)), ("off.", setup_clear(False))], modifies={"value_history"},
     ensures={"cleared_iff_flag": lambda c, q: z3.BoolVal((c.self.attrs["value_history"] is None) == c.flag)})
+
+# ---- _setup_config: period and the clearing flag come from the configuration
+def setup_pcfg(I):
+    from contracts.spec_mdp import ProblemStub
+    mod = I.load_module("mdpax.solvers.periodic_value_iteration").globals
+    P = z3.Int("period"); flag = z3.Bool("clear_flag"); g, e = z3.Real("gamma"), z3.Real("epsilon")
+    cfg = Obj(mod["PeriodicValueIterationConfig"], dict(_target_="t", problem=None, gamma=g, epsilon=e, max_batch_size=z3.Int("mbs"), jax_double_precision=True, verbose=0, checkpoint_dir=None,
+              checkpoint_frequency=0, max_checkpoints=1, enable_async_checkpointing=True, period=P, clear_value_history_on_convergence=flag), label="config")
+    Pb = ProblemStub(I); s = Obj(mod["PeriodicValueIteration"], {}, label="solver")
+    return Ctx(self=s, _args=[Pb.obj, cfg], P=P, flag=flag)
+contract(f"{PV}._setup_config", setup=setup_pcfg,
+    ensures={"period_and_clear_flag_from_config": lambda c, q: z3.And(toz3(c.self.attrs["period"]) == c.P, toz3(c.self.attrs["clear_value_history_on_convergence"]) == c.flag)})
